@@ -270,13 +270,13 @@ def canon_leaf(v, prime_leaf):
     """(leaf, conjugated?, non-trivial multipliers) of a value built from one leaf by Frobenius maps with concrete
     powers and multiplications by constants: the Frobenius of Fq is the identity, that of Fq2 has period 2, and
     multiplying by 1 changes nothing.  None when the value is not of that form."""
-    mults = []
+    prod = M.F2(1, 0)
     while isinstance(v, tuple) and v and v[0] == 'mul':
-        if not _is_one(v[2]):
-            if not isinstance(v[2], (M.F1, M.F2)):
-                return None
-            mults.append(v[2])
+        if not isinstance(v[2], (M.F1, M.F2)):
+            return None
+        prod = prod * (v[2] if isinstance(v[2], M.F2) else M.F2(v[2].v, 0))
         v = v[1]
+    mults = prod
     conj = 0
     while isinstance(v, tuple) and v and v[0] == 'frob':
         if not isinstance(v[2], int):
@@ -342,6 +342,14 @@ def rule_frobenius(fx, rep):
                     cur = fr._project(fr.store.get(r_.root, TOP), r_.proj)
                     okp = isinstance(pw, Int) and pw.v == k
                     new = leafmap(cur, lambda a_: ('frob', a_, k if okp else ('power', repr(pw))))
+                    fr.store[r_.root] = fr._update(fr.store.get(r_.root), list(r_.proj), new) if r_.proj else new
+                    return True
+                if c.get('trait') == FIELD and nm == 'negate' and len(t['args']) == 1:
+                    r_ = target(fr, t['args'][0])
+                    if r_ is None:
+                        return False
+                    cur = fr._project(fr.store.get(r_.root, TOP), r_.proj)
+                    new = leafmap(cur, lambda a_: ('mul', a_, M.F1(-1)))
                     fr.store[r_.root] = fr._update(fr.store.get(r_.root), list(r_.proj), new) if r_.proj else new
                     return True
                 if c.get('trait') == FIELD and nm == 'mul_assign' and len(t['args']) == 2:
@@ -500,7 +508,8 @@ def rule_misc(fx, rep):
                 if isinstance(v, exp.Opt):
                     fr.storev(t['dest'], exp.Opt(v.tag, exp.TOP, v.label))
                     return True
-            return False
+            import stdmodel
+            return stdmodel.result_transfer(I, fr, t, c, pth)
         I = exp.Interp(fx, 'none', extra_transfer=transfer)
         try:
             res = I.run(path, [('byref', exp.TOP)])
@@ -512,8 +521,14 @@ def rule_misc(fx, rep):
         for pth, ret, _ in res:
             if not isinstance(ret, exp.Opt) or not (ret.label and ret.label[0] == 'inverse'):
                 # explicit Some/None on a forked path
-                labs = [l for l in pth.labels if isinstance(l[0], tuple) and l[0][0] == 'inverse']
-                if isinstance(ret, exp.Opt) and ret.tag in ('some', 'none') and len(labs) == 1 and ((labs[0][1] == 1) == (ret.tag == 'some')):
+                import tt as TT
+                labs = []
+                for l_, tk_ in pth.labels:
+                    x_, neg_ = TT.strip_not(l_)
+                    if isinstance(x_, tuple) and x_ and x_[0] == 'inverse':
+                        # (label, variant): variant 1 = Some; a `?` turns Some into Continue (variant 0), recorded as not(label)
+                        labs.append((1 if tk_ != 0 else 0) ^ (1 if neg_ else 0))
+                if isinstance(ret, exp.Opt) and ret.tag in ('some', 'none') and labs and len(set(labs)) == 1 and ((labs[0] == 1) == (ret.tag == 'some')):
                     continue
                 # an explicit zero guard: None under a condition that says the whole element is zero
                 zt = {}
